@@ -1,15 +1,27 @@
 package main
 
 import (
+	"context"
 	"encoding/json"
+	"go/ast"
+	"go/parser"
+	"go/token"
 	"os"
+	"path/filepath"
 	"reflect"
 	"regexp"
 	"runtime"
 	"sort"
+	"strconv"
 	"strings"
 
+	admissionv1 "k8s.io/api/admission/v1"
 	corev1 "k8s.io/api/core/v1"
+	metav1 "k8s.io/apimachinery/pkg/apis/meta/v1"
+	"k8s.io/apimachinery/pkg/runtime/schema"
+	"k8s.io/pod-security-admission/admission"
+	admissionapi "k8s.io/pod-security-admission/admission/api"
+	"k8s.io/pod-security-admission/api"
 	"k8s.io/pod-security-admission/policy"
 )
 
@@ -118,11 +130,68 @@ func init() {
 				volumeProbe["allowed"], volumeProbe["bad"], volumeProbe["default"], volumeProbe["problems"] = allowed, pairs, def, problems
 			}
 		}
+		// F7 (admission tables), read off the running code rather than off the shape of a declaration: the resources the
+		// default extractor knows (its exported accessor), and the pod subresources the controller ignores — every string literal
+		// of package admission's source and every pod subresource Kubernetes has is tried as the subresource of a CREATE of a
+		// privileged pod in a namespace that enforces restricted: "ignored" = allowed without the evaluator being asked
+		var podSpecResources []string
+		for _, gr := range (admission.DefaultPodSpecExtractor{}).PodSpecResources() {
+			alias := map[string]string{"": "corev1", "apps": "appsv1", "batch": "batchv1"}[gr.Group]
+			if alias == "" {
+				alias = gr.Group
+			}
+			podSpecResources = append(podSpecResources, alias+"/"+gr.Resource)
+		}
+		sort.Strings(podSpecResources)
+		candidates := map[string]bool{}
+		for _, s := range []string{"exec", "attach", "binding", "eviction", "log", "portforward", "proxy", "status", "ephemeralcontainers", "resize", "scale", "token", "approval", "finalize", "logs", "Status", "STATUS", "status/", "exec2", "x"} {
+			candidates[s] = true
+		}
+		if files, err := filepath.Glob(repoDir() + "/admission/*.go"); err == nil {
+			for _, f := range files {
+				if strings.HasSuffix(f, "_test.go") {
+					continue
+				}
+				if af, err := parser.ParseFile(token.NewFileSet(), f, nil, 0); err == nil {
+					ast.Inspect(af, func(n ast.Node) bool {
+						if bl, ok := n.(*ast.BasicLit); ok && bl.Kind == token.STRING {
+							if v, err := strconv.Unquote(bl.Value); err == nil && v != "" && len(v) < 40 && !strings.ContainsAny(v, " %\n") {
+								candidates[v] = true
+							}
+						}
+						return true
+					})
+				}
+			}
+		}
+		var ignoredSubs []string
+		{
+			t := true
+			pod := &corev1.Pod{ObjectMeta: metav1.ObjectMeta{Name: "p", Namespace: "team"}, Spec: corev1.PodSpec{Containers: []corev1.Container{{Name: "c", Image: "i", SecurityContext: &corev1.SecurityContext{Privileged: &t}}}}}
+			for s := range candidates {
+				calls := 0
+				adm := &admission.Admission{
+					Configuration: &admissionapi.PodSecurityConfiguration{Defaults: admissionapi.PodSecurityDefaults{Enforce: "privileged", EnforceVersion: "latest", Audit: "privileged", AuditVersion: "latest", Warn: "privileged", WarnVersion: "latest"}},
+					Evaluator:     countingEvaluator{realEvaluator, &calls}, Metrics: &recorder{}, PodSpecExtractor: admission.DefaultPodSpecExtractor{},
+					NamespaceGetter: nsByName{"team": {"pod-security.kubernetes.io/enforce": "restricted"}}, PodLister: clusterLister{}}
+				if err := adm.CompleteConfiguration(); err != nil {
+					continue
+				}
+				resp := adm.Validate(context.Background(), &api.AttributesRecord{Name: "p", Namespace: "team", Resource: schema.GroupVersionResource{Version: "v1", Resource: "pods"}, Subresource: s,
+					Operation: admissionv1.Create, Object: pod, Username: "u"})
+				if resp.Allowed && calls == 0 {
+					ignoredSubs = append(ignoredSubs, s)
+				}
+			}
+			sort.Strings(ignoredSubs)
+		}
 		out := map[string]any{
-			"volumeProbe":  volumeProbe,
-			"default":      dump(policy.DefaultChecks()),
-			"experimental": dump(policy.ExperimentalChecks()),
-			"tables":       policy.VerifTables(),
+			"podSpecResources":       podSpecResources,
+			"ignoredPodSubresources": ignoredSubs,
+			"volumeProbe":            volumeProbe,
+			"default":                dump(policy.DefaultChecks()),
+			"experimental":           dump(policy.ExperimentalChecks()),
+			"tables":                 policy.VerifTables(),
 			"consts": map[string]string{
 				"procMountDefault":     string(corev1.DefaultProcMount),
 				"windows":              string(corev1.Windows),
@@ -133,4 +202,15 @@ func init() {
 		b, _ := json.MarshalIndent(out, "", " ")
 		os.WriteFile(verifDir()+"/work/facts_dump.json", b, 0o644)
 	}
+}
+
+// countingEvaluator counts evaluations
+type countingEvaluator struct {
+	policy.Evaluator
+	n *int
+}
+
+func (e countingEvaluator) EvaluatePod(lv api.LevelVersion, m *metav1.ObjectMeta, sp *corev1.PodSpec) []policy.CheckResult {
+	*e.n++
+	return e.Evaluator.EvaluatePod(lv, m, sp)
 }
